@@ -16,15 +16,15 @@ def pairs_in(f, acc=None):
     return acc
 
 
-def call(K, f, naming, how, form, kripke=None):
+def call(K, f, naming, how, form, kripke=None, atoms=None):
     if form == 'ctls':
-        return mc.call('CTL', K, f, naming, how, form='obj', objlang='CTLS', kripke=kripke)
+        return mc.call('CTL', K, f, naming, how, form='obj', objlang='CTLS', kripke=kripke, atoms=atoms)
     if form == 'str':
         # CTL objects print in a native notation ('AX p') that the CTL parser does not read
         # and that no property claims to round-trip; the CTL* printed form is the documented
         # text form (C09), so 'str' means str() of the CTL* object
-        return mc.call('CTL', K, f, naming, how, form='str', objlang='CTLS', kripke=kripke)
-    return mc.call('CTL', K, f, naming, how, form=form, kripke=kripke)
+        return mc.call('CTL', K, f, naming, how, form='str', objlang='CTLS', kripke=kripke, atoms=atoms)
+    return mc.call('CTL', K, f, naming, how, form=form, kripke=kripke, atoms=atoms)
 
 
 def check_ctl(inp):
@@ -36,7 +36,7 @@ def check_ctl(inp):
         exp2 = ref.star_eval(M, f)
         if exp2 != exp:
             raise core.HarnessError('R-CTL and R-STAR disagree on %r' % (inp,))
-    out = call(K, f, inp.get('naming', 'int'), inp.get('how', 0), inp.get('form', 'obj'))
+    out = call(K, f, inp.get('naming', 'int'), inp.get('how', 0), inp.get('form', 'obj'), atoms=inp.get('atoms'))
     return compare(inp, exp, out)
 
 
@@ -120,7 +120,55 @@ def deep_shard(st, shard, nshards, payload):
                         return
 
 
-CHECKS = {'ctl': check_ctl, 'deep': check_deep}
+BUSY, DONE = ('ap', 'busy'), ('ap', 'done')
+BIG_FORMULAS = [('A', ('F', DONE)), ('E', ('G', BUSY)), ('A', ('U', BUSY, DONE)), ('E', ('R', DONE, BUSY)),
+                ('E', ('F', ('and', DONE, ('E', ('X', DONE))))), ('A', ('G', ('or', BUSY, DONE))), ('E', ('X', BUSY)),
+                ('not', ('E', ('U', BUSY, ('not', BUSY)))), ('A', ('G', ('E', ('F', DONE)))), ('E', ('G', ('not', DONE))),
+                ('A', ('R', DONE, BUSY)), ('A', ('X', ('A', ('X', BUSY))))]
+_BIG = {}
+
+
+def check_big(inp):
+    """CTL.modelcheck (and, for 'via' CTLS / LTL, the other checkers on the CTL-shaped formula) on a
+    structure with thousands of states = the reference."""
+    key = (inp['shape'], inp['N'])
+    if key not in _BIG:
+        _BIG.clear()
+        K = km.big_structure(*key)
+        _BIG[key] = (K, ref.Model(K), km.to_lib(K, inp.get('naming', 'int'), 0))
+    K, M, kripke = _BIG[key]
+    f = fm.from_json(inp['f'])
+    exp = ref.ctl_eval(M, f)
+    via = inp.get('via', 'CTL')
+    out = mc.call(via, K, f, inp.get('naming', 'int'), 0, form='obj', kripke=kripke)
+    return compare(inp, exp, out)
+
+
+def big_shard(st, shard, nshards, payload):
+    i = -1
+    for shape in km.BIG_SHAPES:
+        for N in payload['Ns']:
+            i += 1
+            if i % nshards != shard:
+                continue
+            for fi, f in enumerate(BIG_FORMULAS):
+                vias = ['CTL'] + (['CTLS'] if fi % 2 == 0 else []) + \
+                    (['LTL'] if (fi in (0, 2, 5) and N <= payload['ltl_max']) else [])
+                for via in vias:
+                    inp = {'shape': shape, 'N': N, 'f': f, 'via': via}
+                    st.evaluations += 1
+                    st.nontrivial += 1
+                    st.bump('big structures: %d+ states' % (1000 * (N // 1000)))
+                    if fi == 0 and via == 'CTL':
+                        st.sample(inp, cls='big-' + shape)
+                    r = check_big(inp)
+                    if r is not None:
+                        if st.failure is None:
+                            st.failure = r
+                        return
+
+
+CHECKS = {'ctl': check_ctl, 'deep': check_deep, 'big': check_big}
 
 
 def replay(ctx, rec):
@@ -153,17 +201,20 @@ def enum_shard(st, shard, nshards, payload):
             feats = km.features(K)
             naming = NAMINGS[idx % len(NAMINGS)]
             how = idx % 6
-            kripke = km.to_lib(K, naming, how)
+            ai = (idx // 2) % len(fm.ATOM_MAPS)
+            amap = fm.atom_map(ai)
+            kripke = km.to_lib(km.rename_labels(K, amap), naming, how)
             back = dict((km.name_of(naming)(i), i) for i in range(n))
             memo = {}
             for fi, f in enumerate(forms):
                 if (j * 7 + fi) % nshards != shard:
                     continue
                 exp = ref.ctl_eval(M, f, memo)
-                if fi not in objs:
-                    objs[fi] = fm.to_lib(f, L, share={} if fi % 2 else None)
+                ok_ = (fi, ai if amap else None)
+                if ok_ not in objs:
+                    objs[ok_] = fm.to_lib(fm.rename_atoms(f, amap), L, share={} if fi % 2 else None)
                 try:
-                    res = L.modelcheck(kripke, objs[fi])
+                    res = L.modelcheck(kripke, objs[ok_])
                     out = mc.normalise(res, back)
                 except Exception as e:
                     out = ('exc', type(e).__name__, str(e)[:200])
@@ -176,7 +227,7 @@ def enum_shard(st, shard, nshards, payload):
                     for ft in feats:
                         st.bump(ft)
                 if out != ('set', exp):
-                    inp = {'K': K, 'f': f, 'naming': naming, 'how': how, 'form': 'shared' if fi % 2 else 'obj'}
+                    inp = {'K': K, 'f': f, 'naming': naming, 'how': how, 'form': 'shared' if fi % 2 else 'obj', 'atoms': ai}
                     fresh = check_ctl(inp)
                     if fresh is None:
                         st.add_extra('mismatch_only_with_reused_structure')
@@ -337,6 +388,14 @@ def run(ctx):
         ctx.violation(f)
         return
 
+    bp = {'Ns': ctx.pick([1100], [400, 1100, 2600]), 'ltl_max': ctx.pick(0, 1100)}
+    ctx.scopes.append('size: 8 shapes (timer, countdown, ring, lollipop, ladder, tree, two rings, fan) with %s states x 12 CTL formulas '
+                      'through CTL (and CTL* / LTL for those they share)' % [n_ + 1 for n_ in bp['Ns']])
+    f = core.run_sharded(ctx, big_shard, bp)
+    if f is not None:
+        ctx.violation(f)
+        return
+
     f = core.run_random(ctx, random_shard, 4000, 40000)
     if f is not None:
         ctx.violation(f)
@@ -349,6 +408,7 @@ def random_shard(st, shard, nshards, payload):
         'f': fm.st_formula('ctl', max_depth=4),
         'naming': hs.sampled_from(NAMINGS),
         'how': hs.integers(0, 5),
+        'atoms': hs.integers(0, len(fm.ATOM_MAPS) - 1),
         'form': hs.sampled_from(FORMS),
     })
 
